@@ -240,6 +240,24 @@ func (r *runner) runAll(cases []*Case, workers int) {
 	wg.Wait()
 }
 
+// mcastWorks probes whether this machine can open multicast listeners (a multicast SETUP succeeds).
+func mcastWorks() bool {
+	ts, err := startServer(Cfg{Handler: "full", UDP: true, Mcast: true}, 2*time.Second, readTimeout, 1)
+	if err != nil {
+		return false
+	}
+	defer ts.close()
+	c, err := ts.dial()
+	if err != nil {
+		return false
+	}
+	defer c.Close()
+	p := newPeer(0, c)
+	p.write((&RawReq{Method: "SETUP", URL: baseURL(ts.cfg, streamPath) + "/trackID=0", Headers: hdr(1, [2]string{"Transport", "RTP/AVP;multicast"})}).Bytes())
+	res, err := p.readResponse(3 * time.Second)
+	return err == nil && res.StatusCode == 200
+}
+
 // corrChild generates and runs the correspondence cases in this (child) process.
 func (r *runner) corrChild(out string) {
 	c := r.c
@@ -255,7 +273,11 @@ func (r *runner) corrChild(out string) {
 	} else {
 		var cases []*Case
 		cases = append(cases, corpusCases()...)
-		cfgs := allCfgs(false)
+		mc := mcastWorks()
+		if mc {
+			r.dump.Dist["multicast-available"]++
+		}
+		cfgs := allCfgs(mc)
 		rng := c.Rng
 		for _, cfg := range []Cfg{{Handler: "full", UDP: true}, {Handler: "full", UDP: false, TLS: true}} {
 			cases = append(cases, tunnelCases(rng, cfg)...)
